@@ -410,7 +410,7 @@ func (c *PullClient) getSetupURL(ctrl string) (setupURL *url.URL, err error) {
 
 	setupURL = new(url.URL)
 	*setupURL = *c.url
-	if setupURL.Path[len(setupURL.Path)-1] == '/' {
+	if strings.HasSuffix(setupURL.Path, "/") { // Path 可能为空（rtsp://host:port）
 		setupURL.Path = setupURL.Path + ctrl
 	} else {
 		setupURL.Path = setupURL.Path + "/" + ctrl
